@@ -41,6 +41,10 @@ def remapErr {α} (f : Err → Err) : Except Err α → Except Err α
   | .error e => .error (f e)
   | .ok a => .ok a
 
+/-- `a // b`, `a % b` for a divisor that may be zero (ZeroDivisionError). -/
+def fdivE (a b : Int) : Except Err Int := if b = 0 then .error (.internal "ZeroDivisionError") else .ok (Int.fdiv a b)
+def fmodE (a b : Int) : Except Err Int := if b = 0 then .error (.internal "ZeroDivisionError") else .ok (Int.fmod a b)
+
 /-- `sum(l)` of a list of Python ints. -/
 def sumI (l : List Int) : Int := l.foldl (· + ·) 0
 
